@@ -19,7 +19,7 @@ def io_bodies(F):
 
 def run_structural(chk, F):
     bodies = io_bodies(F)
-    chk.rule("B2.byteorder", floor=6, doc="BE impls convert with from_be_bytes/to_be_bytes, LE impls with from_le_bytes/to_le_bytes; LE remainder assembled in reverse")
+    chk.rule("B2.byteorder", floor=6, doc="BE impls convert with from_be_bytes/to_be_bytes, LE impls with from_le_bytes/to_le_bytes (how the 1..7 remainder bytes are packed into a word is not decided: an iterator reversal, a zero-padded array or per-byte shifts are all correct ways)")
     chk.rule("B3.count", floor=6, doc="every successful path returns Ok(buf.len())")
     chk.rule("B4.errors", floor=6, doc="a failing bit-level operation becomes an io::Error (never Ok with fewer bytes)")
     for kind, e, b in bodies:
@@ -56,8 +56,7 @@ def run_structural(chk, F):
                 eprobs.append("a failed operation does not end in Err")
         if convs != {e}:
             probs.append("%s stream converts with %s" % (e.upper(), sorted(convs)))
-        if kind == "write" and (rev != (e == "le")):
-            probs.append("remainder bytes are assembled %s for a %s stream" % ("in reverse" if rev else "forward", e.upper()))
+
         key = "%s|%s" % ((b.get("impl_self") or "")[:60], kind)
         chk.expect("B2.byteorder", key, not probs, "%s: %s" % (b["path"], "; ".join(probs)), sample={"fn": b["path"], "conversions": sorted(convs)})
         chk.expect("B3.count", key, nok >= 1 and not cprobs, "%s: %s" % (b["path"], "; ".join(sorted(set(cprobs))) or "no Ok path"))
